@@ -333,7 +333,7 @@ def wtest (fuel : Nat) (script : List Resp) (tail : Resp) (acc : Bytes) (calls :
 
 /-- one byte per call, `Interrupted` before the 3rd byte, `BrokenPipe` (tag 7) at the 6th: the writer holds `["é\`
     (a split escape, but a prefix), 7 calls were made, 4 buffers were handed over, the result is `Io` with that error -/
-example : wtest 100 [.short 1, .short 1, .intr, .short 1, .short 1, .short 1, .fail 7, .short 1] (.short 1)
+example : wtest 100 [.short 1, .short 1, .intr, .short 1, .short 1, .short 1, .fail (.other 7), .short 1] (.short 1)
     [0x5b, 0x22, 0xc3, 0xa9, 0x5c] 7 [[0x5b], [0x22], [0xc3, 0xa9], [0x5c, 0x22]] (.io { kind := .other 7 }) = true := by
   decide +kernel
 
